@@ -1233,8 +1233,35 @@ func (th *Thread) atomicOp(kind string, p *Value, args []Value) Value {
 		}
 	}
 	th.schedPoint("atomic." + kind)
-	cur := (*p).(*Term)
 	vc := m.atomVC[p]
+	if _, isTerm := (*p).(*Term); !isTerm {
+		// pointer-valued cells (atomic.LoadPointer & co, the bodies of atomic.Pointer[T])
+		defer func() {
+			th.hbAcquire(vc)
+			nvc := vc
+			th.hbRelease(&nvc)
+			m.atomVC[p] = nvc
+		}()
+		old := *p
+		switch kind {
+		case "Load":
+			return old
+		case "Store":
+			*p = args[0]
+			return nil
+		case "Swap":
+			*p = args[0]
+			return old
+		case "CompareAndSwap":
+			if m.decide(th.equal(old, args[0])) {
+				*p = args[1]
+				return ts.Bool(true)
+			}
+			return ts.Bool(false)
+		}
+		m.unsupported("atomic op " + kind + " on a pointer cell")
+	}
+	cur := (*p).(*Term)
 	defer func() {
 		// every atomic op is both an acquire and a release (seq. consistency)
 		th.hbAcquire(vc)
